@@ -43,3 +43,51 @@ Proof.
   intros H. pose proof sweep_ok as S. rewrite forallb_forall in S. apply S. apply in_zrange.
   unfold sweep_n. rewrite Z2Nat.id by lia. exact H.
 Qed.
+
+(* ---------- the year filter's date range is the tax year (C07) ---------- *)
+Definition yb (y : Z) : Z := days_of_civil {| dy := y; dm := 4; dd := 6 |}.
+Definition ye (y : Z) : Z := days_of_civil {| dy := y + 1; dm := 4; dd := 5 |}.
+Definition year_ok (y : Z) : bool := (yb y <=? ye y) && (ye y + 1 =? yb (y + 1)).
+Lemma years_ok : forallb year_ok (zrange 1899 203) = true.
+Proof. vm_compute. reflexivity. Qed.
+Lemma year_ok_range y : 1899 <= y < 1899 + 203 -> yb y <= ye y /\ ye y + 1 = yb (y + 1).
+Proof.
+  intros H. pose proof years_ok as S. rewrite forallb_forall in S.
+  specialize (S y (in_zrange 203 1899 y H)). unfold year_ok in S. apply andb_true_iff in S. destruct S as [A B].
+  apply Z.leb_le in A. apply Z.eqb_eq in B. split; assumption.
+Qed.
+Lemma yb_mono y1 y2 : 1899 <= y1 -> y1 < y2 -> y2 <= 2101 -> ye y1 < yb y2.
+Proof.
+  intros H1 H12 H2. assert (forall n, (0 <= n)%Z -> y1 + 1 + n <= 2101 -> ye y1 < yb (y1 + 1 + n)) as G.
+  { intros n Hn. pattern n. apply natlike_ind; [|intros x Hx IH Hle|exact Hn].
+    - intros _. rewrite Z.add_0_r. destruct (year_ok_range y1) as [_ E]; lia.
+    - specialize (IH ltac:(lia)). destruct (year_ok_range (y1 + 1 + x)) as [A E]; [lia|].
+      replace (y1 + 1 + Z.succ x) with (y1 + 1 + x + 1) by lia. lia. }
+  replace y2 with (y1 + 1 + (y2 - y1 - 1)) by lia. apply G; lia.
+Qed.
+
+Definition in_range46 (y z : Z) : bool := (yb y <=? z) && (z <=? ye y).
+Definition in_year46 (y z : Z) : bool :=
+  match tax_year_of_gen 4 6 1900 2100 (civil_of_days z) with Some y' => y' =? y | None => false end.
+
+Theorem range_is_year y z : 1900 <= y <= 2100 -> sweep_lo <= z < sweep_lo + 74144 -> in_range46 y z = in_year46 y z.
+Proof.
+  intros Hy Hz. pose proof (day_ok_range z Hz) as D. unfold day_ok in D.
+  apply andb_true_iff in D. destruct D as [_ D]. unfold in_year46, in_range46.
+  destruct (tax_year_of_gen 4 6 1900 2100 (civil_of_days z)) as [y'|].
+  - apply andb_true_iff in D. destruct D as [D D4]. apply andb_true_iff in D. destruct D as [D D3].
+    apply andb_true_iff in D. destruct D as [D1 D2].
+    apply Z.leb_le in D1, D2, D3, D4. fold (yb y') in D3. fold (ye y') in D4.
+    destruct (Z.eqb_spec y' y) as [->|N].
+    + apply andb_true_iff. split; apply Z.leb_le; assumption.
+    + apply andb_false_iff. destruct (Z.lt_ge_cases y' y) as [L|G].
+      * left. apply Z.leb_gt. pose proof (yb_mono y' y ltac:(lia) L ltac:(lia)). lia.
+      * right. apply Z.leb_gt. pose proof (yb_mono y y' ltac:(lia) ltac:(lia) ltac:(lia)).
+        destruct (year_ok_range y) as [A _]; [lia|]. lia.
+  - apply orb_true_iff in D. fold (yb 1900) in D. change (days_of_civil {| dy := 2101; dm := 4; dd := 5 |}) with (ye 2100) in D.
+    apply andb_false_iff. destruct D as [D|D]; apply Z.ltb_lt in D.
+    + left. apply Z.leb_gt. destruct (Z.eq_dec y 1900) as [->|N]; [exact D|].
+      pose proof (yb_mono 1900 y ltac:(lia) ltac:(lia) ltac:(lia)). destruct (year_ok_range 1900) as [A _]; [lia|]. lia.
+    + right. apply Z.leb_gt. destruct (Z.eq_dec y 2100) as [->|N]; [exact D|].
+      pose proof (yb_mono y 2100 ltac:(lia) ltac:(lia) ltac:(lia)). destruct (year_ok_range 2100) as [A _]; [lia|]. lia.
+Qed.
